@@ -165,6 +165,35 @@ def same(a: Any, b: Any) -> bool:
         return False
 
 
+def diff_path(a: Any, b: Any, depth: int = 0) -> str:
+    """Path of the first member at which two decoded values differ (used to name violation sites)."""
+    a, b = unwrap(a), unwrap(b)
+    if depth > 8:
+        return ""
+    if dataclasses.is_dataclass(a) and not isinstance(a, type) and type(a) is type(b):
+        a = {f.name: getattr(a, f.name) for f in dataclasses.fields(a)}
+        b = {f.name: getattr(b, f.name) for f in dataclasses.fields(b)}
+    if isinstance(a, dtypes.TaggedUnion) and isinstance(b, dtypes.TaggedUnion):
+        a, b = {"tag": a.tag, "value": a.value}, {"tag": b.tag, "value": b.value}
+    if isinstance(a, dict) and isinstance(b, dict):
+        for k in a:
+            if k not in b:
+                return f"{k}(missing)"
+            if not same(a[k], b[k]):
+                sub = diff_path(a[k], b[k], depth + 1)
+                return f"{k}.{sub}" if sub else str(k)
+        return "(extra-keys)" if len(a) != len(b) else ""
+    if isinstance(a, (list, tuple)) and isinstance(b, (list, tuple)) and not isinstance(a, dtypes.TupleCoord) \
+            and not isinstance(b, dtypes.TupleCoord):
+        if len(a) != len(b):
+            return "(length)"
+        for i, (x, y) in enumerate(zip(a, b)):
+            if not same(x, y):
+                sub = diff_path(x, y, depth + 1)
+                return f"{i}.{sub}" if sub else str(i)
+    return ""
+
+
 def all_finite(x: Any) -> bool:
     x = unwrap(x)
     if isinstance(x, float):
@@ -197,6 +226,8 @@ class Domain:
         self.endianness = endianness
         self.subset_cap = 11 if thorough else 4
         self.infinite = thorough
+        self._memo: Dict[tuple, List[Variant]] = {}
+        self._keep: List[Any] = []  # specs built on the fly must stay alive while their id() is a memo key
 
     # -- helpers
     def _leaf_decode(self, spec, raw: bytes):
@@ -212,8 +243,18 @@ class Domain:
 
     # -- main dispatch
     def variants(self, spec, ctx=None, flag_bits: int = 0, only_size: Optional[int] = None) -> List[Variant]:
+        """Variants of ``spec``; memoised per spec object unless the node itself reads the sibling context."""
         if spec is se.UNSERIALIZABLE:
             return []
+        if isinstance(spec, (se.OptionalFlagged, se.ContextAdapter, se.ContextSwitch)):
+            return self._variants(spec, ctx, flag_bits, only_size)
+        key = (id(spec), flag_bits, only_size)
+        got = self._memo.get(key)
+        if got is None:
+            got = self._memo[key] = self._variants(spec, ctx, flag_bits, only_size)
+        return got
+
+    def _variants(self, spec, ctx, flag_bits, only_size) -> List[Variant]:
         if isinstance(spec, type):  # class-level specs
             if spec is se.Null:
                 return [(None, "null")]
@@ -383,16 +424,31 @@ class Domain:
             return self.variants(spec._ser_spec, ctx)
         return [(None, "flag-off")]
 
+    def _encoded_len(self, spec, val) -> Optional[int]:
+        w = se.BufferWriter(self.endianness)
+        try:
+            w.write(spec, val)
+        except Exception:
+            return None
+        return len(w.buffer)
+
     def _v_LengthSwitch(self, spec, ctx, only_size=None):
+        """(size, value) pairs; for a fixed-size choice only values whose encoding has that size belong to the branch
+        (trial encoding with the choice spec), for the catch-all branch only values whose size selects no other branch."""
         out = []
+        heads = []
         for size, choice in spec._choice_specs.items():
             if only_size is not None and size != only_size:
                 continue
+            first = True
             for v, t in self.variants(choice, ctx):
-                out.append(((size, v), f"len{size}.{t}"))
-        # one base per choice first, so that the first len(choices) variants cover every branch
-        heads = [next(x for x in out if x[0][0] == s) for s in spec._choice_specs if only_size is None or s == only_size]
-        return heads + [x for x in out if not any(x is h for h in heads)]
+                n = self._encoded_len(choice, v)
+                if n is None or (size is not None and n != size) or (size is None and n in spec._choice_specs):
+                    continue
+                (heads if first else out).append(((size, v), f"len{size}.{t}"))
+                first = False
+        # one head per choice first, so that the first len(choices) variants cover every branch
+        return heads + out
 
     def _v_EnumSwitch(self, spec, ctx):
         out = []
@@ -431,6 +487,19 @@ class Domain:
                 vals = dict(prefix)
                 vals[n] = v
                 out.append((build(vals, i + 1), f"{n}.{tag}"))
+        # second base: every optional member absent (flag fields 0), all other leaves varied again
+        if refbits:
+            off: dict = {}
+            for n in names:
+                off[n] = 0 if n in refbits else child_variants(n, off)[0][0]
+            out.append((off, "off.base"))
+            for i, n in enumerate(names):
+                if n in refbits or isinstance(specs[n], se.OptionalFlagged):
+                    continue
+                for v, tag in child_variants(n, off)[1:]:
+                    vals = dict(off)
+                    vals[n] = v
+                    out.append((vals, f"off.{n}.{tag}"))
         return out
 
     def _v_Dataclass(self, spec, ctx):
@@ -442,7 +511,7 @@ class Domain:
         if spec._length:
             n = spec._length
             return [([e0] * n, "fixed.base")] + [([v] + [e0] * (n - 1), f"fixed.0.{t}") for v, t in ev[1:]]
-        out = [([e0], "one"), ([], "none"), ([e0, e0], "two")]
+        out = [([e0], "one"), ([], "empty"), ([e0, e0], "two")]
         out += [([v], f"0.{t}") for v, t in ev[1:]]
         if len(ev) > 1:
             out.append(([e0, ev[1][0], e0], "three"))
@@ -457,7 +526,7 @@ class Domain:
         for v, t in ev:  # first variant per distinct key
             if not any(h[0][0] == v[0] for h in heads):
                 heads.append((v, t))
-        out = [(dict([heads[0][0]]), "one"), ({}, "none")]
+        out = [(dict([heads[0][0]]), "one"), ({}, "empty")]
         out.append((dict(h[0] for h in heads), "all-keys"))
         out.append((dict(h[0] for h in reversed(heads)), "all-keys-reversed"))
         out += [(dict([v]), f"0.{t}") for v, t in ev[1:]]
@@ -497,7 +566,7 @@ class Domain:
     def _v_NameValuesSerializer(self, spec, ctx):
         def nv(name="attach", typ="STRING", rw="RW", sendto="SV", value="hello"):
             return {"name": name, "type": typ, "rw": rw, "sendto": sendto, "value": value}
-        out = [([nv()], "one"), ([nv(), nv("n2", "U32", "R", "S", "42")], "two"), ([], "none")]
+        out = [([nv()], "one"), ([nv(), nv("n2", "U32", "R", "S", "42")], "two"), ([], "empty-list")]
         for typ, value in (("F32", "1.5"), ("S32", "-7"), ("VEC3", "<1, 2, 3>"), ("ASSET", str(UUIDS[0])), ("U64", "18446744073709551615"),
                            ("NULL", "x"), ("CAMERA", "c")):
             out.append(([nv(typ=typ, value=value)], f"type={typ}"))
@@ -513,7 +582,8 @@ class Domain:
 
 # ------------------------------------------------------------------------------------------------ payload mutation
 def mutations(payload: bytes, thorough: bool, max_positions: int = 4096) -> List[Tuple[bytes, str]]:
-    """Single-byte substitutions at every position, every truncation, one-byte extensions."""
+    """Single-byte substitutions at every position, every truncation, one-byte extensions.  Tags are ``kind@detail``;
+    only ``kind`` (sub / trunc / append) goes into violation sites, the witness carries the payload itself."""
     out: List[Tuple[bytes, str]] = []
     seen = {payload}
     n = len(payload)
@@ -525,13 +595,13 @@ def mutations(payload: bytes, thorough: bool, max_positions: int = 4096) -> List
 
     for i in range(min(n, max_positions)):
         c = payload[i]
-        subs = [0x00, 0xFF, c ^ 0x01] + ([0x01, 0x7F, 0x80, c ^ 0x80, (c + 1) & 0xFF] if thorough else [])
+        subs = [0x00, 0xFF, c ^ 0x01, c ^ 0x80] + ([0x01, 0x7F, 0x80, (c + 1) & 0xFF] if thorough else [])
         for s in subs:
             add(payload[:i] + bytes([s]) + payload[i + 1:], f"sub@{i}={s:#04x}")
     for i in range(n):
         add(payload[:i], f"trunc@{i}")
     for s in (0x00, 0xFF) + ((0x01, 0x80) if thorough else ()):
-        add(payload + bytes([s]), f"append={s:#04x}")
+        add(payload + bytes([s]), f"append@{s:#04x}")
     return out
 
 
